@@ -97,7 +97,7 @@ pub fn check(c: &Case) -> Outcome {
     let mut i2 = Instr::new(&prob, &evs);
     i2.dir = d;
     i2.use_jac = c.analytic_jac;
-    let sol = match solve(&i2, x0, xend, &y0, &mk(if c.zero_length { None } else { te.clone() }, c.dense)) {
+    let sol = match solve(&i2, x0, xend, &y0, &mk(if c.zero_length { te.as_ref().map(|v| vec![x0; v.len().max(1)]) } else { te.clone() }, c.dense)) {
         RunResult::Ok(s) => s,
         other => return Outcome::viol(format!("{}: plain run Ok but the run with dense={} t_eval={} gives {}", c.method.name(), c.dense, te.is_some(), other.describe())),
     };
@@ -210,7 +210,7 @@ pub fn check(c: &Case) -> Outcome {
     for o in &c.outside {
         for side in [-1.0, 1.0] {
             let edge = if side < 0.0 { a.min(b) } else { a.max(b) };
-            let t = edge + side * (1e-9 * (1.0 + edge.abs()) * 1.01 + o * len);
+            let t = edge + side * (1.01e-9 + 256.0 * ulp(edge.abs()) + o * len);
             let r1 = sol.sol(t);
             let r2 = sol.sol_many(&[qs.first().copied().unwrap_or(a), t]);
             if !out_of_range(&r1) || !out_of_range(&r2) {
@@ -233,7 +233,7 @@ pub fn strategy() -> BoxedStrategy<Case> {
     let prob = prop_oneof![3 => prob_spec(5, 0.5, 8.0), 1 => stiffish_spec(4)];
     (
         prob,
-        prop_oneof![12 => span_mid().boxed(), 1 => span_tiny().boxed()],
+        prop_oneof![12 => span_mid().boxed(), 1 => span_tiny().boxed(), 1 => span_far().boxed()],
         any_method(),
         tols(5, 3.0, 9.0),
         (proptest::bool::weighted(0.85), proptest::option::weighted(0.3, places(10)), proptest::option::weighted(0.2, log10(-2.0, 0.0)), proptest::option::weighted(0.2, log10(-3.0, -0.5))),
@@ -244,6 +244,11 @@ pub fn strategy() -> BoxedStrategy<Case> {
         (proptest::collection::vec(log10(-9.0, 0.5), 1..4), proptest::option::weighted(0.12, crate::xoutrel::strategy())),
     )
         .prop_map(|(prob, span, method, (rtol, atol), (dense, t_eval, max_step, first_step), terminal_at, analytic_jac, (z, max_steps), queries, (outside, xout))| {
+            // far from the origin the rounding of t makes a time-dependent right-hand side noisy: autonomous problems there
+            let mut prob = prob;
+            if span.x0.abs() > 1e4 {
+                prob.warp.k = 0;
+            }
             let stiff = prob.blocks.iter().any(|b| matches!(b, Block::Real { lam, .. } if *lam < -20.0));
             let method = if stiff && !method.implicit() { if method == Meth::RK4 || method == Meth::RK23 { Meth::BDF } else { Meth::RADAU } } else { method };
             Case { prob, span, method, rtol, atol, dense, t_eval, max_step, first_step, terminal_at, analytic_jac, zero_length: z == 0, queries, outside, max_steps, xout }
@@ -259,10 +264,10 @@ pub fn run(ctx: &Ctx, known: &[Known]) -> Report {
     let stats = run_generated(ctx, "C06", "gen", &strategy, &check, cases, known);
     Report {
         id: "C06".into(),
-        rule: "cases = closed-form problems (n<=5) and mildly stiff linear ones (rates to 1e4, Radau/BDF) x spans x six methods x tolerances x dense on/off x optional grid-relative t_eval, max_step, first_step, max_steps (a run ending with NeedLargerNMax keeps the dense output of the steps it took), terminal event, zero-length run. The accepted-step grid and states are observed through one events() call per step; oracle: sol_span = [x0, last step end], sol(step end) = state, continuity just after every interior boundary, sol(reported sample) = sample, sol/sol_many Ok and equal for generated interior points, OutOfRange for points outside by more than 1e-9(1+|t|), NotEnabled when disabled. The per-step interpolant handed to SolOut callbacks: one case in eight is a low-level run of any of the six solvers with dense_output default/true/false whose callback answers ControlFlag::XOut at generated callbacks (or prints equidistantly, announcing each next output point): every interpolant handed over must reproduce both end states of its step (and C19 checks the same on every callback of every history). Non-trivial = at least 3 accepted steps. Distinct = distinct canonical JSON.".into(),
+        rule: "cases = closed-form problems (n<=5) and mildly stiff linear ones (rates to 1e4, Radau/BDF) x spans x six methods x tolerances x dense on/off x optional grid-relative t_eval, max_step, first_step, max_steps (a run ending with NeedLargerNMax keeps the dense output of the steps it took), terminal event, zero-length run (with t_eval = [x0,..] when t_eval is requested), one span in fourteen at |x0| = 1e5..1e12 (autonomous problems there). The accepted-step grid and states are observed through one events() call per step; oracle: sol_span = [x0, last step end], sol(step end) = state, continuity just after every interior boundary, sol(reported sample) = sample, sol/sol_many Ok and equal for generated interior points, OutOfRange for points outside by more than 1e-9 + 256 ulp(t), NotEnabled when disabled. The per-step interpolant handed to SolOut callbacks: one case in eight is a low-level run of any of the six solvers with dense_output default/true/false whose callback answers ControlFlag::XOut at generated callbacks (or prints equidistantly, announcing each next output point): every interpolant handed over must reproduce both end states of its step (and C19 checks the same on every callback of every history). Non-trivial = at least 3 accepted steps. Distinct = distinct canonical JSON.".into(),
         assumptions: vec![
             "end-point agreement to 1e-10*(1+|y|) + 8*max|f|*ulp(t) (a time is only known to an ulp); continuity probe at t + max(2.5e-12, 8 ulp) with bound 2*max|f|*delta".into(),
-            "'clearly outside' = farther than 1e-9*(1+|t|) from the covered span".into(),
+            "'clearly outside' = farther than 1e-9 + 256 ulp(t) from the covered span (the crate's own slack is an absolute 1e-12)".into(),
         ],
         min_nontrivial_frac: 0.5,
         stats,
